@@ -27,6 +27,8 @@ CFG = {
     # extended vocabulary of struct_props / structworld (call-and-read formulas, space formulas that read
     # references, the extended motif programs)
     "ext": True,
+    # the enumerations also start from the programs in which a cells' VALUE depends on the NAME of its space
+    "enum_motifs": [S.MOTIFS_NAME[0]],
 }
 # weights of the motif programs for the random histories: motif 8 assigns a value (uncached cells refuse that),
 # the last extended motif switches flags itself
@@ -36,7 +38,8 @@ RULE = ("one history of 14-28 edits/evaluations replayed under k assignments of 
         "{f,g,h,k} (flag forced after each creation and formula change; `flip` ops switch a name's flag at that point of the history, "
         "half of them followed by an edit of a reference of a space that has such a cells; after every motif program: every cells name switched "
         "in mid-history x every edit of an existing reference; a cells shared by several callers: one caller invalidated on its own, then an "
-        "edit through the shared cells); non-trivial = the assignments produced at "
+        "edit through the shared cells; spaces that hold cells renamed, also after a program whose cells return a value "
+        "that depends on the NAME of their space and are called from elsewhere); non-trivial = the assignments produced at "
         "least one evaluation through an uncached cells whose value later changed after an edit")
 
 
@@ -213,7 +216,7 @@ def check_history(ops, out, stats, assignments):
 def enumerate_single_edits(ctx, out, stats, allassign):
     """small-scope exhaustive part: every motif program x every applicable single edit x flag
     assignments: evaluate everything, edit, evaluate everything; results must not depend on flags"""
-    for mi, motif in enumerate(S.motifs_for(CFG)):
+    for mi, motif in enumerate(S.motifs_for(CFG) + [list(m) for m in CFG["enum_motifs"]]):
         if not motif or any(o[0] in ("set_value", "set_cached") for o in motif):
             continue        # inputs need a cached cells; the flags are the assignment's
         prefix = [["set_mref", "u", 11], ["set_mref", "r", 12]] + [list(o) for o in motif]
@@ -224,6 +227,9 @@ def enumerate_single_edits(ctx, out, stats, allassign):
                 live.apply(op)
             edits = [e for e in S.single_edits(live) if e[0] != "set_value"]   # inputs need a cached cells
             refed = [e for e in S.ref_edits_existing(live, edits) if e[0] != "del_mref"]
+            # every space that holds cells (or whose descendants do) renamed: what was computed elsewhere through an
+            # uncached cells of the renamed tree must follow (the quick sample of the other edits does not move)
+            renames = S.rename_space_edits(live)
             S.eval_everything(live)
             shared = S.shared_callee_sequences(live, edits, with_names=True)
         finally:
@@ -247,6 +253,11 @@ def enumerate_single_edits(ctx, out, stats, allassign):
                       or (e[0] == "add_bases" and len(e[2]) == 1)]
             edits = rng.sample(edits, min(len(edits), 3 if light else 6))
             edits += [e for e in always if e not in edits]
+            # renames: all of them after the programs about names, one (seeded) after each of the others
+            if mi < len(S.motifs_for(CFG)) and renames:
+                renames = [ctx.rng("enum-rename", mi).choice(renames)]
+        edits = edits + renames
+        stats["enumerated_space_renames"] += len(renames)
         single = [a for a in allassign if sum(1 for x in a if not x) == 1]
         double = [a for a in allassign if sum(1 for x in a if not x) == 2]
         for e in edits:
